@@ -463,6 +463,18 @@ def contains(it, container, item, node):
                 return False
             return VSet([True, False])
         return item in container
+    if isinstance(container, range):
+        sset = as_intset(item)
+        if sset is None:
+            return False if not isinstance(item, (Unknown,)) else VSet([True, False])
+        if sset[0] == "set":
+            return _bools(x in container for x in sset[1])
+        lo, hi = sset[1], sset[2]
+        if len(container) == 0 or hi < min(container[0], container[-1]) or lo > max(container[0], container[-1]):
+            return False
+        if container.step == 1 and container[0] <= lo and hi <= container[-1]:
+            return True
+        return VSet([True, False])
     if isinstance(container, str):
         if isinstance(item, str):
             return item in container
@@ -873,6 +885,11 @@ class ZipVal:
         finite = []
         for s in self.seqs:
             if isinstance(s, CycleVal):
+                if id(s) in it.shared_ids:
+                    # an iterator object created once: every zip() over it consumes items, later calls start elsewhere
+                    it.event("mutate", obj=s, op="consumption of a shared iterator (itertools.cycle)", node=node,
+                             shared=it.shared_ids[id(s)], where=it._where(node),
+                             func=it.cur_frame.func.short if getattr(it, "cur_frame", None) and it.cur_frame.func else None)
                 finite.append(None)
             else:
                 finite.append(iterate(it, s, node))
@@ -1070,6 +1087,10 @@ def value_attr(it, base, name, node):
             return b[-1].rsplit(".", 1)[0] if isinstance(b[-1], str) else Unknown("stem")
         if name == "parent":
             return b[:-1]
+        if name == "name":
+            return b[-1]
+        if name == "suffix":
+            return "." + b[-1].rsplit(".", 1)[1] if isinstance(b[-1], str) and "." in b[-1] else ""
         return ExtRef("Path." + name, recv=b)
     if isinstance(b, (frozenset, set)):
         return ExtRef("set." + name, recv=b)
